@@ -164,6 +164,18 @@ class NCVar:
                     if not unlimited:
                         stop = min(stop, cur)
                     idxs.append(list(range(start, max(start, stop))))
+            elif (isinstance(k, SA) and k.kind == "i" and not any(isinstance(x, (bool, rnp.bool_)) for x in k.a.ravel())) or (isinstance(k, rnp.ndarray) and k.dtype.kind in "iu"):
+                # integer index array (netCDF4: orthogonal indexing; an unlimited dimension grows as needed)
+                ka = k.a if isinstance(k, SA) else k
+                sel = []
+                for x in ka.ravel():
+                    i = x.__index__() if is_sym(x) else int(x)
+                    if i < 0:
+                        i += cur
+                    if i < 0 or (not unlimited and i >= cur):
+                        raise IndexError("index exceeds dimension bounds")
+                    sel.append(i)
+                idxs.append(sel)
             elif isinstance(k, SA) or (isinstance(k, rnp.ndarray) and k.dtype in (bool, object)):
                 ka = k.a if isinstance(k, SA) else k
                 sel = [i for i, b in enumerate(ka.ravel()) if bool(b)]
